@@ -77,6 +77,13 @@ TV_NOTE = ("Trusted: TLC and the CommunityModules overrides; the harness encoder
 NOT_APPLICABLE = {}
 
 PROPS = {
+    "C02": dict(level="model_checking", nontrivial=nt_c02,
+                text="Every Filter call of the generated scenarios (random clause trees over all comparators x constant / list / column / none / predicate "
+                     "arguments x five column types x Inverse, on frames with arbitrary physical index) is executed on the real library and the kept rows "
+                     "are compared by TLC with FilterSem (spec/Clause.tla: row-wise ClauseTruth) evaluated on the specification's own copy of the receiver.",
+                note=TV_NOTE, technique="TLA+ specification (Clause.tla) + TLC trace validation of harness executions",
+                rule="random frames (0..300 rows, all column types, nulls, derived by sort/slice/filter/distinct) x random clause trees (depth <=3 quick, <=5 thorough); "
+                     "non-trivial = the result keeps >=1 row and the clause has >=2 leaves; distinct by (clause, result digest)"),
     "C08": dict(level="model_checking", nontrivial=nt_c08,
                 text="Every New / Select / Drop / Slice / Copy call of the emitted and generated scenarios is executed on the real library and "
                      "its observed result is compared by TLC with NewSem / SelectSem / DropSem / SliceSem / CopySem of spec/Ops.tla applied to the "
